@@ -1,2 +1,29 @@
-(* C12 — placeholder, filled below *)
-From Rdest Require Import Base Consts Wire Manager.
+(* C12 — no missing piece is ever withheld by a stale reservation. *)
+From Rdest Require Import Base Consts Wire Manager MgrProofs.
+Open Scope N_scope.
+
+(* a piece once owned stays owned, whatever command the manager handles *)
+Theorem C12_have_absorbing : forall m c pick m' r bc sp i, mstep m c pick = Ok (m', r, bc, sp) ->
+  have_at (m_status m) i -> have_at (m_status m') i.
+Proof. exact have_absorbing. Qed.
+
+(* a peer is only ever assigned a piece it advertised and the client still lacks: the chooser's relation *)
+Theorem C12_asked_advertised_lacked : forall m p i, pick_ok m p (Some i) = true ->
+  nth (N.to_nat i) (p_pieces p) false = true /\
+  exists s, nth_error (m_status m) (N.to_nat i) = Some s /\ is_have s = false.
+Proof.
+  intros m p i H. destruct (pick_ok_spec m p (Some i) H) as (A & (s & B & C & _) & _). split; [exact A|]. exists s. tauto.
+Qed.
+
+(* the reservation invariant over all event histories (Reserved => some connected peer that is not choking us
+   has actually been asked) needs the composition with the connection tasks; it is decided by the correspondence
+   oracle (reserved_backed / asked_ok on the real Session's states after every command); no Coq proof yet.
+   The three defects it found are repaired (known_findings.json). *)
+Example C12_nonvacuous :
+  let p := mkpeer None [true; true] None false true false true false None None in
+  let m := mkmgr [Missing; Have] [(1, p)] [] 0 false [4; 2] in
+  match mstep m (CUnchoke 1) (Some 0) with Ok (m', r, _, _) => m_status m' = [Reserved 1; Have] /\ r = RUnchoke_IntReq 0 4 | _ => False end.
+Proof. vm_compute. split; reflexivity. Qed.
+
+Print Assumptions C12_have_absorbing.
+Print Assumptions C12_asked_advertised_lacked.
